@@ -1,9 +1,9 @@
 #!/bin/sh
-# Builds the conformance harness (both arithmetic profiles) offline from files on disk.
+# Builds the conformance harness (all binaries, both arithmetic profiles) offline from files on disk.
 set -e
 cd "$(dirname "$0")/harness"
 export CARGO_NET_OFFLINE=true
 [ -f Cargo.lock ] || cp /repo/Cargo.lock Cargo.lock
-cargo build --offline --release
-cargo build --offline --profile checked
+cargo build --offline --release --bins
+cargo build --offline --profile checked --bins
 echo "setup ok"
